@@ -3,6 +3,14 @@
 // private state types from explicit components, read-only snapshots, and one-line forwarding wrappers
 // for the private kernels. No logic of the code under test lives here: every wrapper body is a single
 // call of the real function (or a field read / struct literal).
+/// Swallows a diagnostic macro invocation that stubs/file.toml switched off (see there).
+#[cfg(any(kani, emit_rs_emit_verif))]
+#[doc(hidden)]
+#[macro_export]
+macro_rules! __verif_diag_off {
+    ($($t:tt)*) => {{}};
+}
+
 #[cfg(any(kani, emit_rs_emit_verif))]
 #[allow(dead_code, missing_docs)]
 pub mod verif {
@@ -224,6 +232,26 @@ pub mod verif {
         }
         pub fn bufs_len(&self) -> usize {
             self.0.bufs.len()
+        }
+    }
+
+    // ---------------------------------------------------------------------------------
+    // model of std's `<[T]>::sort_by` for at most three elements (see stubs/file.toml `read-sort-upto3`):
+    // a stable compare-and-swap network driven by the caller's comparator.
+
+    pub fn sort_by_upto3<T>(v: &mut [T], mut cmp: impl FnMut(&T, &T) -> std::cmp::Ordering) {
+        let n = v.len();
+        assert!(n <= 3, "verif: sort model covers at most three elements");
+        if n >= 2 && cmp(&v[0], &v[1]) == std::cmp::Ordering::Greater {
+            v.swap(0, 1);
+        }
+        if n == 3 {
+            if cmp(&v[1], &v[2]) == std::cmp::Ordering::Greater {
+                v.swap(1, 2);
+                if cmp(&v[0], &v[1]) == std::cmp::Ordering::Greater {
+                    v.swap(0, 1);
+                }
+            }
         }
     }
 
